@@ -27,6 +27,7 @@ pub const EDITS: &[&str] = &[
     "duplicate-input-in-tx",
     "duplicate-input-across-txs",
     "duplicate-input-across-txs-zero-lead",
+    "duplicate-input-across-txs-stake-typed",
     "type-spv",
     "type-blockstake",
     "type-atr",
@@ -142,6 +143,17 @@ pub fn make_hostile(w: &mut World, ledger: &RefLedger, spent: &[SlipRef], edit: 
             txs.push(t1);
             txs.push(t2);
         }
+        "duplicate-input-across-txs-stake-typed" => {
+            // the same double spend, the first spender typed BlockStake (valid with staking off: the
+            // requirement is zero): whatever its type, a transaction's inputs are spent in the block
+            let mut t1 = make_tx(&vk, &[vin.clone()], &[(vk.pk, vin.amount)], ts + tag, &data);
+            t1.transaction_type = TransactionType::BlockStake;
+            t1.sign(&vk.sk);
+            let tag2 = w.next_ts_tag();
+            let t2 = make_tx(&vk, &[vin.clone()], &[(ak.pk, vin.amount)], ts + tag2, &tag2.to_le_bytes());
+            txs.push(t1);
+            txs.push(t2);
+        }
         "duplicate-input-across-txs-zero-lead" => {
             // the same double spend, but in both transactions the contested output comes second, after a
             // zero-amount input (legal: zero-value inputs are never looked up)
@@ -225,7 +237,7 @@ impl Scenario for C01 {
     fn meta(&self) -> Meta {
         Meta {
             level: "exploration",
-            rule: "run = honest history (0..10/25 blocks after the issuance block; optionally with a reorganisation so that spent/unspent differ between forks) + one hostile item from a 15-entry catalogue (forged/zero/foreign signature, foreign-owned extra input, non-existent, already-spent, duplicated input in a tx / across txs of a block, user inputs under SPV / BlockStake / ATR / Issuance / Fee / Vip type, overspend) placed at a random transaction position, offered through one of four entry paths: pool (Mempool::add_transaction_if_validates), block as next tip, block on a side fork that then becomes the longer candidate, block on top of an honest stored sibling of the tip (the hostile block is the second block of the candidate chain, so the first is wound and unwound again). Oracles: hostile tx absent from the pool; hostile block never on the longest chain, and with the tip unmoved the spendable set is exactly what it was before the block arrived; independent scan of the node's longest chain against the reference ledger (every value-carrying input spendable at that point, owned by the signer). The honest twin must be accepted, otherwise the run is discarded as trivial. distinct_nontrivial = distinct (state class, depth bucket, edit, path, position) whose twin was accepted.",
+            rule: "run = honest history (0..10/25 blocks after the issuance block; optionally with a reorganisation so that spent/unspent differ between forks) + one hostile item from an 18-entry catalogue (forged/zero/foreign signature, foreign-owned extra input, non-existent, already-spent, duplicated input in a tx / across txs of a block, user inputs under SPV / BlockStake / ATR / Issuance / Fee / Vip type, overspend) placed at a random transaction position, offered through one of four entry paths: pool (Mempool::add_transaction_if_validates), block as next tip, block on a side fork that then becomes the longer candidate, block on top of an honest stored sibling of the tip (the hostile block is the second block of the candidate chain, so the first is wound and unwound again). Oracles: hostile tx absent from the pool; hostile block never on the longest chain, and with the tip unmoved the spendable set is exactly what it was before the block arrived; independent scan of the node's longest chain against the reference ledger (every value-carrying input spendable at that point, owned by the signer). The honest twin must be accepted, otherwise the run is discarded as trivial. distinct_nontrivial = distinct (state class, depth bucket, edit, path, position) whose twin was accepted.",
             real: &["Transaction::validate/validate_against_utxoset/generate", "Slip::validate", "Block::create/generate/validate", "Mempool::add_transaction_if_validates", "Blockchain::add_block"],
             stubs: &["SimIo", "SimConfig", "vendored ahash"],
             assumptions: &["genesis period >> depth in this family (expired inputs are exercised by C13's histories)", "staking off"],
